@@ -47,7 +47,13 @@ def corrected_equivalences(ctx, env):
         sizes = rng.sample([Fraction(1143, 1000), Fraction(5, 4), Fraction(2), Fraction(1, 2), Fraction(9, 8), Fraction(3)], 3)
         anchor = rng.choice(others[:2])   # the pair that is stated again is always the same one
         for size in sizes:
-            own.equals(core.sf(size / anchor[1]) * anchor[0])
+            if rng.random() < 0.5:
+                own.equals(core.sf(size / anchor[1]) * anchor[0])
+            else:
+                # the same statement through the module-level function, both sides carrying a number: j own = j*size/anchor
+                j = rng.choice([3, 0.5, 12, 2.5])
+                env.conv.equate(Q(j, own), Q(core.sf(Fraction(j) * size / anchor[1]), anchor[0]))
+                ctx.count("equivalences_stated_through_conversions_equate")
             x = rng.choice([1, 2, 0.5, 10])
             a, a_si = Q(x, own), Fraction(x) * size
             for (ub, sb) in others:
